@@ -41,8 +41,8 @@ Definition k1_inst : inst :=
     [{| w_id := 1; w_res := [70000]; w_free := [70000]; w_assigned := []; w_blocked := []; w_term := None |};
      {| w_id := 2; w_res := [80000]; w_free := [80000]; w_assigned := []; w_blocked := []; w_term := None |}];
      i_classes :=
-    [{| rc_entries := [(0, 30000)]; rc_min_time := 0 |};
-     {| rc_entries := [(0, 15000)]; rc_min_time := 0 |}];
+    [{| rc_entries := [(0, 30000)]; rc_min_time := 0; rc_all := [] |};
+     {| rc_entries := [(0, 15000)]; rc_min_time := 0; rc_all := [] |}];
      i_queues := mk_queues 2 [(8589934593, 0, (50)%Z); (4294967298, 0, (-1)%Z); (8589934595, 0, (50)%Z); (4294967300, 0, (50)%Z); (4294967301, 0, (-30)%Z); (8589934598, 1, (4)%Z); (8589934599, 1, (57)%Z); (8589934600, 1, (4)%Z); (4294967305, 1, (-30)%Z); (4294967306, 1, (57)%Z)] |}.
 Definition k1_sol : sol := sol_of [(VX 1 0, 1%Z); (VX 1 1, 2%Z); (VX 2 0, 1%Z); (VX 2 1, 3%Z); (VB 1 2, 0%Z); (VB 1 4, 0%Z); (VB 0 3, 1%Z); (VB 0 4, 1%Z)].
 Definition k1_dispatch : dispatch := [(4294967306, 1); (4294967300, 1); (8589934598, 1); (8589934599, 2); (8589934593, 2); (8589934600, 2); (4294967305, 2)].
@@ -62,9 +62,9 @@ Definition k2_inst : inst :=
      i_workers :=
     [{| w_id := 1; w_res := [50000]; w_free := [50000]; w_assigned := []; w_blocked := []; w_term := None |}];
      i_classes :=
-    [{| rc_entries := [(0, 30000)]; rc_min_time := 0 |};
-     {| rc_entries := [(0, 20000)]; rc_min_time := 0 |};
-     {| rc_entries := [(0, 15000)]; rc_min_time := 0 |}];
+    [{| rc_entries := [(0, 30000)]; rc_min_time := 0; rc_all := [] |};
+     {| rc_entries := [(0, 20000)]; rc_min_time := 0; rc_all := [] |};
+     {| rc_entries := [(0, 15000)]; rc_min_time := 0; rc_all := [] |}];
      i_queues := mk_queues 3 [(8589934593, 0, (89)%Z); (4294967298, 0, (30)%Z); (8589934595, 0, (-91)%Z); (8589934596, 1, (14)%Z); (8589934597, 1, (30)%Z); (4294967302, 2, (98)%Z); (4294967303, 2, (10)%Z); (4294967304, 2, (30)%Z)] |}.
 Definition k2_sol : sol := sol_of [(VX 1 0, 0%Z); (VX 1 1, 1%Z); (VX 1 2, 2%Z); (VB 2 1, 0%Z); (VB 0 1, 1%Z); (VB 2 2, 1%Z); (VB 1 2, 1%Z)].
 Definition k2_dispatch : dispatch := [(4294967302, 1); (4294967304, 1); (8589934597, 1)].
@@ -85,8 +85,8 @@ Definition k3_inst : inst :=
     [{| w_id := 1; w_res := [30000]; w_free := [30000]; w_assigned := []; w_blocked := []; w_term := None |};
      {| w_id := 2; w_res := [30000]; w_free := [30000]; w_assigned := []; w_blocked := []; w_term := None |}];
      i_classes :=
-    [{| rc_entries := [(0, 20000)]; rc_min_time := 0 |};
-     {| rc_entries := [(0, 10000)]; rc_min_time := 0 |}];
+    [{| rc_entries := [(0, 20000)]; rc_min_time := 0; rc_all := [] |};
+     {| rc_entries := [(0, 10000)]; rc_min_time := 0; rc_all := [] |}];
      i_queues := mk_queues 2 [(8589934593, 0, (29)%Z); (8589934594, 0, (24)%Z); (4294967299, 0, (29)%Z); (4294967300, 0, (29)%Z); (4294967301, 0, (29)%Z); (4294967302, 0, (24)%Z); (8589934599, 1, (29)%Z); (4294967304, 1, (24)%Z); (8589934601, 1, (24)%Z); (4294967306, 1, (24)%Z); (4294967307, 1, (29)%Z)] |}.
 Definition k3_sol : sol := sol_of [(VX 1 0, 1%Z); (VX 1 1, 1%Z); (VX 2 0, 0%Z); (VX 2 1, 3%Z)].
 Definition k3_dispatch : dispatch := [(4294967299, 1); (4294967307, 1); (8589934599, 2); (4294967304, 2); (4294967306, 2)].
@@ -106,8 +106,8 @@ Definition k4_inst : inst :=
      i_workers :=
     [{| w_id := 10; w_res := [70000; 40000]; w_free := [70000; 40000]; w_assigned := []; w_blocked := []; w_term := None |}];
      i_classes :=
-    [{| rc_entries := [(0, 20000)]; rc_min_time := 0 |};
-     {| rc_entries := [(0, 10000); (1, 20000)]; rc_min_time := 0 |}];
+    [{| rc_entries := [(0, 20000)]; rc_min_time := 0; rc_all := [] |};
+     {| rc_entries := [(0, 10000); (1, 20000)]; rc_min_time := 0; rc_all := [] |}];
      i_queues := mk_queues 2 [(4294967297, 0, (-1)%Z); (4294967298, 0, (-29)%Z); (8589934595, 0, (2147483647)%Z); (4294967300, 0, (-74)%Z); (4294967301, 0, (-74)%Z); (8589934598, 0, (16)%Z); (8589934599, 1, (-74)%Z); (4294967304, 1, (-29)%Z); (8589934601, 1, (2147483647)%Z); (4294967306, 1, (-2147483648)%Z); (4294967307, 1, (-74)%Z)] |}.
 Definition k4_sol : sol := sol_of [(VX 10 0, 2%Z); (VX 10 1, 2%Z); (VB 1 1, 1%Z); (VB 0 3, 1%Z)].
 Definition k4_dispatch : dispatch := [(8589934595, 10); (8589934601, 10); (8589934598, 10); (4294967304, 10)].
@@ -127,9 +127,9 @@ Definition k5_inst : inst :=
      i_workers :=
     [{| w_id := 1; w_res := [70000; 0; 40000]; w_free := [50000; 0; 40000]; w_assigned := [1; 1]; w_blocked := []; w_term := None |}];
      i_classes :=
-    [{| rc_entries := [(0, 30000); (2, 40000)]; rc_min_time := 0 |};
-     {| rc_entries := [(0, 10000)]; rc_min_time := 0 |};
-     {| rc_entries := [(0, 10000); (2, 10000)]; rc_min_time := 0 |}];
+    [{| rc_entries := [(0, 30000); (2, 40000)]; rc_min_time := 0; rc_all := [] |};
+     {| rc_entries := [(0, 10000)]; rc_min_time := 0; rc_all := [] |};
+     {| rc_entries := [(0, 10000); (2, 10000)]; rc_min_time := 0; rc_all := [] |}];
      i_queues := mk_queues 3 [(8589934593, 0, (26)%Z); (4294967298, 1, (-74)%Z); (8589934595, 2, (-64)%Z); (8589934596, 2, (-74)%Z); (8589934597, 2, (-64)%Z); (8589934598, 2, (-64)%Z); (8589934599, 2, (100)%Z); (4294967304, 2, (-64)%Z); (4294967305, 2, (-64)%Z)] |}.
 Definition k5_sol : sol := sol_of [(VX 1 0, 0%Z); (VX 1 1, 1%Z); (VX 1 2, 1%Z); (VB 2 1, 1%Z); (VB 0 1, 1%Z)].
 Definition k5_dispatch : dispatch := [(8589934599, 1); (4294967298, 1)].
